@@ -9,6 +9,10 @@ CHECKS = {
    "reference-model monitor (set of prefixes) over exhaustive + seeded operation sequences, boundary probes in 4- and 16-byte form",
    "Runs the real IPv4Filter next to a set-of-prefixes model over all sequences of up to 4 (quick) / 6 (thorough) operations of a 12-op alphabet, replayed from empty and after 254/255/256 filler adds (list mode, across the migration, map mode, with already-removed slots), plus seeded random sequences of 250-650 ops over a small universe; after every op the first/last address of every touched range and its outside neighbours are probed in both address forms. Held-on-what-was-observed, not a proof.",
    "Trusts the model (30 lines) and net.IPNet construction; sequences beyond the enumerated length are only sampled.", "§3 C11"),
+ "C04": ("route", "exploration",
+   "reference-model monitor (router written from the statement) + invocation counter + recover(), exhaustive small-scope tables x paths, seeded random large tables",
+   "Registers every table of up to 3 routes over 58 patterns x {GET,*} (POST for pairs), thorough also all 4-route tables over 10 shapes x 3 methods, on a real Mux and on a flat-list reference router; sends 151 paths (doubled/trailing slashes, look-alike segments, '', '*', slash-less) x 4 methods through ServeHTTP and compares the single invoked handler, its RouteInfo and every parameter lookup. Plus random tables of 5..40 routes with arbitrary-byte segments. About 10^8 dispatches per run.",
+   "Trusts the 150-line reference router; requests are delivered by calling ServeHTTP directly with a hand-built http.Request (no network parsing in between).", "§3 C04"),
 }
 BUILT = set(CHECKS)
 
